@@ -50,12 +50,12 @@ theorem setHolder_other (s : State) {l l' : Nat} (h : Option Nat) (hne : l' ≠ 
 
 /-- program points inside the `with <lock>:` block -/
 def inCS : PC → Bool
-  | .recheck | .initAssert | .create | .setId _ | .release _ => true
+  | .recheck | .initAssert | .create | .setId _ | .release _ | .releaseFault => true
   | _ => false
 
 /-- program points at which the thread has been handed its lock object and still uses it -/
 def usesLock : PC → Bool
-  | .acquire | .recheck | .initAssert | .create | .setId _ | .release _ => true
+  | .acquire | .recheck | .initAssert | .create | .setId _ | .release _ | .releaseFault => true
   | _ => false
 
 theorem usesLock_of_inCS {p : PC} (h : inCS p = true) : usesLock p = true := by
@@ -77,6 +77,8 @@ def PCok (cfg : Cfg) (s : State) (t : Nat) : PC → Prop
        | .write p => Call.upload p 1 ∈ s.calls
        | .fin => Call.complete 1 ∈ s.calls)
   | .failed => False
+  | .releaseFault => s.uploadId = 0 ∧ s.creates = 0
+  | .faulted => True
   | .start => True
   | .askClient => True
   | .lockGet => True
@@ -165,8 +167,8 @@ theorem PCok_outside_one {cfg : Cfg} {s s' : State} {t : Nat} {p : PC}
     (hcs : inCS p = false) (hu : s'.uploadId = 1) (hcalls : ∀ c, c ∈ s.calls → c ∈ s'.calls)
     (h : PCok cfg s t p) : PCok cfg s' t p := by
   cases p with
-  | start | askClient | lockGet | lockSetdefault | acquire => trivial
-  | recheck | initAssert | create => simp [inCS] at hcs
+  | start | askClient | lockGet | lockSetdefault | acquire | faulted => trivial
+  | recheck | initAssert | create | releaseFault => simp [inCS] at hcs
   | setId _ => simp [inCS] at hcs
   | release _ => simp [inCS] at hcs
   | useAssert | readId => exact hu
@@ -367,6 +369,12 @@ theorem step_inv (cfg : Cfg) (hr : cfg.recheck = true) (ha : cfg.atomicLock = tr
     rw [hpc] at hpt
     simp only [PCok] at hpt
     have hcs : inCS (s.pc t) = true := by rw [hpc]; rfl
+    cases hf : cfg.faultCreate t with
+    | true =>
+      simp only [if_true]
+      exact inv_goto hI (by rw [hpc]; rfl) (by rw [hpc]; rfl) hpt
+    | false =>
+    simp only [Bool.false_eq_true, if_false]
     refine ⟨?_, ?_, lockinv_frame hL rfl rfl rfl rfl (by rw [hpc]; rfl) (by rw [hpc]; rfl), ?_, ?_, ?_⟩
     · simp [hpt.1, hpt.2]
     · intro h
@@ -452,6 +460,12 @@ theorem step_inv (cfg : Cfg) (hr : cfg.recheck = true) (ha : cfg.atomicLock = tr
     rw [hpc] at hpt
     simp only [PCok] at hpt
     obtain ⟨rfl, hu1⟩ := hpt
+    cases hf : cfg.faultCall t with
+    | true =>
+      simp only [if_true]
+      exact inv_goto hI (by rw [hpc]; rfl) (by rw [hpc]; rfl) trivial
+    | false =>
+    simp only [Bool.false_eq_true, if_false]
     cases hk : cfg.kind t with
     | write p =>
       simp only
@@ -490,8 +504,42 @@ theorem step_inv (cfg : Cfg) (hr : cfg.recheck = true) (ha : cfg.atomicLock = tr
     refine inv_goto hI (by rw [hpc]; rfl) (by rw [hpc]; rfl) ?_
     simp only [PCok, hpt.2.1]
     exact ⟨hpt.1, hpt.2.2⟩
+  | releaseFault =>
+    simp only
+    rw [hpc] at hpt
+    simp only [PCok] at hpt
+    obtain ⟨hu0, hc0⟩ := hpt
+    have hcs : inCS (s.pc t) = true := by rw [hpc]; rfl
+    have hsel : s.slot = some (s.mylock t) := hL.sel t (usesLock_of_inCS hcs)
+    refine ⟨hI.ids, ?_, ⟨?_, ?_, ?_⟩, ?_, hI.calls, hI.count⟩
+    · intro _ _; exact hc0
+    · intro t'
+      by_cases h : t' = t
+      · rw [h]; simp [usesLock]
+      · simp only [goto_pc_other _ _ h]; exact hL.sel t'
+    · intro t'
+      by_cases h : t' = t
+      · rw [h]; simp [inCS]
+      · simp only [goto_pc_other _ _ h]
+        intro hc
+        simp only [setHolder_pc] at hc
+        exact absurd hc (by rw [hL.others_outside hcs t' h]; simp)
+    · intro l' h hl'
+      simp only [goto_locks] at hl'
+      by_cases e : l' = s.mylock t
+      · subst e; rw [setHolder_self] at hl'; exact absurd hl' (by simp)
+      · rw [setHolder_other _ _ e] at hl'
+        have := (hL.only l' h hl').1
+        rw [hsel] at this
+        exact absurd (Option.some.inj this).symm e
+    · intro t'
+      by_cases h : t' = t
+      · rw [h, goto_pc_self]; trivial
+      · rw [goto_pc_other _ _ h]
+        exact PCok_mono (s := s) rfl rfl (fun _ hc => hc) (hI.pcs t')
   | done => simpa using hI
   | failed => simpa using hI
+  | faulted => simpa using hI
 
 theorem runFrom_inv (cfg : Cfg) (hr : cfg.recheck = true) (ha : cfg.atomicLock = true) (sched : List Nat) :
     ∀ s, Inv cfg s → Inv cfg (runFrom cfg s sched) := by
@@ -504,7 +552,7 @@ theorem runFrom_inv (cfg : Cfg) (hr : cfg.recheck = true) (ha : cfg.atomicLock =
 theorem step_pc_other (cfg : Cfg) (s : State) {t t' : Nat} (h : t' ≠ t) :
     (step cfg s t).pc t' = s.pc t' := by
   unfold step
-  split <;> (try split) <;> simp [h, State.setMy, State.setHolder]
+  split <;> (try split) <;> (try split) <;> simp [h, State.setMy, State.setHolder]
 
 theorem runFrom_pc_unscheduled (cfg : Cfg) (sched : List Nat) (t : Nat) (ht : t ∉ sched) :
     ∀ s, (runFrom cfg s sched).pc t = s.pc t := by
@@ -534,12 +582,12 @@ theorem enabled_of_inCS (s : State) (t : Nat) (h : inCS (s.pc t) = true) : enabl
 thread that has ever moved belongs to `T`, all threads of `T` have returned normally. -/
 theorem all_done_of_stuck (cfg : Cfg) (s : State) (hI : Inv cfg s) (T : List Nat)
     (hT : ∀ t, s.pc t ≠ .start → t ∈ T) (hmax : ∀ t ∈ T, enabled s t = false) :
-    ∀ t ∈ T, s.pc t = .done := by
+    ∀ t ∈ T, s.pc t = .done ∨ s.pc t = .faulted := by
   intro t ht
   have hen := hmax t ht
   have hok := hI.pcs t
   unfold enabled at hen
-  cases hp : s.pc t <;> rw [hp] at hen hok <;> simp at hen
+  cases hp : s.pc t <;> rw [hp] at hen hok <;> simp at hen ⊢
   · -- blocked at `acquire`: the holder is inside the critical section, hence enabled
     cases hl : s.locks (s.mylock t) with
     | none => simp [hl] at hen
@@ -556,7 +604,7 @@ def remaining : PC → Nat
   | .start => 14 | .askClient => 13 | .lockGet => 12 | .lockSetdefault => 11 | .acquire => 10
   | .recheck => 9 | .initAssert => 8
   | .create => 7 | .setId _ => 6 | .release _ => 5 | .useAssert => 4 | .readId => 3
-  | .call _ => 2 | .askClient2 => 1 | .done => 0 | .failed => 0
+  | .call _ => 2 | .askClient2 => 1 | .releaseFault => 5 | .done => 0 | .failed => 0 | .faulted => 0
 
 /-- every effective step brings the stepping thread strictly closer to its end -/
 theorem step_decreases (cfg : Cfg) (s : State) (t : Nat) (h : enabled s t = true) :
@@ -575,15 +623,17 @@ theorem step_decreases (cfg : Cfg) (s : State) (t : Nat) (h : enabled s t = true
     | some _ => simp [hl] at h
   | recheck => simp only []; split <;> simp [remaining]
   | initAssert => simp only []; split <;> simp [remaining]
-  | create => simp [remaining]
+  | create => simp only []; split <;> simp [remaining]
   | setId _ => simp [remaining]
   | release _ => simp only []; split <;> simp [remaining]
+  | releaseFault => simp [remaining]
   | useAssert => simp only []; split <;> simp [remaining]
   | readId => simp [remaining]
-  | call _ => simp only []; split <;> simp [remaining]
+  | call _ => simp only []; split <;> (try split) <;> simp [remaining]
   | askClient2 => simp [remaining]
   | done => rw [hp] at h; simp at h
   | failed => rw [hp] at h; simp at h
+  | faulted => rw [hp] at h; simp at h
 
 end Local
 
@@ -622,7 +672,8 @@ theorem setWid_one_range (s : State) (w w' : Nat) (h : s.wid w' = 0 ∨ s.wid w'
 
 /-- program points inside the `with lock:` block -/
 def inCS : PC → Bool
-  | .get2 | .setOwn2 _ | .initAssert | .create | .setId _ | .readForVar | .setVar _ | .release _ => true
+  | .get2 | .setOwn2 _ | .initAssert | .create | .setId _ | .readForVar | .setVar _ | .release _
+  | .releaseFault => true
   | _ => false
 
 /-- What thread `t` may rely on at program point `p`. -/
@@ -651,6 +702,8 @@ def PCok (cfg : Cfg) (s : State) (t : Nat) : PC → Prop
        | .write p => Call.upload p 1 ∈ s.calls
        | .fin => Call.complete 1 ∈ s.calls)
   | .failed => False
+  | .releaseFault => s.var = none ∧ s.creates = 0
+  | .faulted => True
 
 structure Ids (s : State) : Prop where
   creates_le : s.creates ≤ 1
@@ -678,7 +731,8 @@ theorem PCok_mono {cfg : Cfg} {s s' : State} {t : Nat} {p : PC}
     (hv : inCS p = true → s'.var = s.var)
     (hcalls : ∀ c, c ∈ s.calls → c ∈ s'.calls) (h : PCok cfg s t p) : PCok cfg s' t p := by
   cases p with
-  | start | askClient | get1 | acquire => trivial
+  | start | askClient | get1 | acquire | faulted => trivial
+  | releaseFault => exact ⟨(hv rfl) ▸ h.1, hc ▸ h.2⟩
   | setOwn1 id => exact ⟨h.1, hc ▸ h.2⟩
   | get2 => intro hv'; rw [hv rfl] at hv'; rw [hc]; exact h hv'
   | setOwn2 id => exact ⟨h.1, (hv rfl) ▸ h.2⟩
@@ -704,9 +758,9 @@ theorem PCok_outside_zero {cfg : Cfg} {s s' : State} {t : Nat} {p : PC}
     PCok cfg s' t p := by
   have hw : ∀ w, s.wid w = 1 → False := fun w hw1 => by have := hI.wid_created w hw1; omega
   cases p with
-  | start | askClient | get1 | acquire => trivial
+  | start | askClient | get1 | acquire | faulted => trivial
   | setOwn1 id => have := h.2; omega
-  | get2 | initAssert | create | readForVar => simp [inCS] at hcs
+  | get2 | initAssert | create | readForVar | releaseFault => simp [inCS] at hcs
   | setOwn2 _ => simp [inCS] at hcs
   | setId _ => simp [inCS] at hcs
   | setVar _ => simp [inCS] at hcs
@@ -876,6 +930,12 @@ theorem step_inv (cfg : Cfg) (s : State) (t : Nat) (hI : Inv cfg s)
     rw [hpc] at hpt hmt
     obtain ⟨hv0, hc0⟩ := hpt
     have hlk : s.lock = some t := hmt.1 rfl
+    cases hf : cfg.faultCreate t with
+    | true =>
+      simp only [if_true]
+      exact inv_goto hI (by rw [hpc]; rfl) ⟨hv0, hc0⟩
+    | false =>
+    simp only [Bool.false_eq_true, if_false]
     refine inv_frame (t := t) hI (fun t' h => by simp [h]) ?_ ?_ ?_ (fun _ _ => Iff.rfl) ?_ ?_ ?_ ?_
     · exact ⟨by simp [hc0], hids.wid_range, fun _ _ => by simp [hc0], hids.var_range,
         fun _ => by simp [hc0]⟩
@@ -977,6 +1037,12 @@ theorem step_inv (cfg : Cfg) (s : State) (t : Nat) (hI : Inv cfg s)
     obtain ⟨rfl, hw1⟩ := hpt
     have hc1 := hids.wid_created _ hw1
     have hnl : s.lock ≠ some t := fun h => by simpa [inCS] using hmt.2 h
+    cases hf : cfg.faultCall t with
+    | true =>
+      simp only [if_true]
+      exact inv_goto hI (by rw [hpc]; rfl) trivial
+    | false =>
+    simp only [Bool.false_eq_true, if_false]
     cases hk : cfg.kind t with
     | write p =>
       simp only
@@ -1017,14 +1083,33 @@ theorem step_inv (cfg : Cfg) (s : State) (t : Nat) (hI : Inv cfg s)
     rw [hpc] at hpt
     exact inv_goto hI (by rw [hpc]; rfl) hpt
   | delVar => intro hd; simp at hd
+  | releaseFault =>
+    intro _
+    simp only
+    rw [hpc] at hpt hmt
+    obtain ⟨hv0, hc0⟩ := hpt
+    have hlk : s.lock = some t := hmt.1 rfl
+    refine inv_frame (t := t) hI (fun t' h => by simp [h])
+      ⟨hids.creates_le, hids.wid_range, hids.wid_created, hids.var_range, hids.var_created⟩ ?_ ?_ ?_ ?_ ?_
+      hI.calls hI.count
+    · intro _ _; exact hc0
+    · simp [inCS]
+    · intro t' h
+      simp only [goto_lock, hlk]
+      constructor
+      · intro e; simp at e
+      · intro e; exact absurd (Option.some.inj e) (fun e => h e.symm)
+    · simp only [goto_pc_self]; trivial
+    · exact fun t' _ h => PCok_mono (s := s) rfl (fun _ h => h) (fun _ => rfl) (fun _ h => h) h
   | done => intro _; simpa using hI
   | failed => intro _; simpa using hI
+  | faulted => intro _; simpa using hI
 
 theorem step_deleted_mono (cfg : Cfg) (s : State) (t : Nat) (h : (step cfg s t).deleted = false) :
     s.deleted = false := by
   revert h
   unfold step
-  cases hpc : s.pc t <;> simp only [] <;> (try split) <;> simp [State.goto, State.setWid]
+  cases hpc : s.pc t <;> simp only [] <;> (try split) <;> (try split) <;> simp [State.goto, State.setWid]
 
 theorem runFrom_deleted_mono (cfg : Cfg) (sched : List Nat) :
     ∀ s, (runFrom cfg s sched).deleted = false → s.deleted = false := by
@@ -1046,7 +1131,7 @@ theorem step_pc_other (cfg : Cfg) (s : State) {t t' : Nat} (h : t' ≠ t) :
     (step cfg s t).pc t' = s.pc t' := by
   unfold step
   simp only
-  split <;> (try split) <;> simp [h]
+  split <;> (try split) <;> (try split) <;> simp [h]
 
 theorem runFrom_pc_unscheduled (cfg : Cfg) (sched : List Nat) (t : Nat) (ht : t ∉ sched) :
     ∀ s, (runFrom cfg s sched).pc t = s.pc t := by
@@ -1075,12 +1160,12 @@ theorem enabled_of_inCS (s : State) (t : Nat) (h : inCS (s.pc t) = true) : enabl
 thread that has ever moved belongs to `T`, all threads of `T` have returned normally. -/
 theorem all_done_of_stuck (cfg : Cfg) (s : State) (hI : Inv cfg s) (T : List Nat)
     (hT : ∀ t, s.pc t ≠ .start → t ∈ T) (hmax : ∀ t ∈ T, enabled s t = false) :
-    ∀ t ∈ T, s.pc t = .done := by
+    ∀ t ∈ T, s.pc t = .done ∨ s.pc t = .faulted := by
   intro t ht
   have hen := hmax t ht
   have hok := hI.pcs t
   unfold enabled at hen
-  cases hp : s.pc t <;> rw [hp] at hen hok <;> simp at hen
+  cases hp : s.pc t <;> rw [hp] at hen hok <;> simp at hen ⊢
   · cases hl : s.lock with
     | none => simp [hl] at hen
     | some h =>
@@ -1096,7 +1181,8 @@ def remaining : PC → Nat
   | .start => 18 | .askClient => 17 | .get1 => 16 | .setOwn1 _ => 15 | .acquire => 15 | .get2 => 14
   | .setOwn2 _ => 13 | .initAssert => 13 | .create => 12 | .setId _ => 11 | .readForVar => 10
   | .setVar _ => 9 | .release _ => 8 | .endAssert => 7 | .useAssert => 6 | .readId => 5
-  | .call _ => 4 | .askClient2 => 3 | .delVar => 2 | .done => 0 | .failed => 0
+  | .call _ => 4 | .askClient2 => 3 | .delVar => 2 | .releaseFault => 8 | .done => 0 | .failed => 0
+  | .faulted => 0
 
 theorem step_decreases (cfg : Cfg) (s : State) (t : Nat) (h : enabled s t = true) :
     remaining ((step cfg s t).pc t) < remaining (s.pc t) := by
@@ -1116,19 +1202,21 @@ theorem step_decreases (cfg : Cfg) (s : State) (t : Nat) (h : enabled s t = true
   | get2 => simp only []; split <;> simp [remaining]
   | setOwn2 _ => simp [remaining]
   | initAssert => simp only []; split <;> simp [remaining]
-  | create => simp [remaining]
+  | create => simp only []; split <;> simp [remaining]
   | setId _ => simp [remaining]
   | readForVar => simp [remaining]
   | setVar _ => simp [remaining]
   | release a => cases a <;> simp [remaining]
+  | releaseFault => simp [remaining]
   | endAssert => simp only []; split <;> simp [remaining]
   | useAssert => simp only []; split <;> simp [remaining]
   | readId => simp [remaining]
-  | call _ => simp only []; split <;> simp [remaining]
+  | call _ => simp only []; split <;> (try split) <;> simp [remaining]
   | askClient2 => simp [remaining]
   | delVar => simp [remaining]
   | done => rw [hp] at h; simp at h
   | failed => rw [hp] at h; simp at h
+  | faulted => rw [hp] at h; simp at h
 
 /-! ### without a finalise the variable is never deleted -/
 
@@ -1161,8 +1249,11 @@ theorem step_nofin (cfg : Cfg) (hk : ∀ t, cfg.kind t ≠ .fin) (s : State) (t 
   | setOwn2 id => exact nofin_goto (s := s.setWid _ id) h (by simp) (by simp)
   | initAssert => simp only []; split <;> exact nofin_goto h (by simp) (by simp)
   | create =>
-    exact nofin_goto (s := { s with creates := s.creates + 1, calls := .create (s.creates + 1) :: s.calls }) h
-      (by simp) (by simp)
+    simp only []
+    split
+    · exact nofin_goto h (by simp) (by simp)
+    · exact nofin_goto (s := { s with creates := s.creates + 1, calls := .create (s.creates + 1) :: s.calls }) h
+        (by simp) (by simp)
   | setId id => exact nofin_goto (s := s.setWid _ id) h (by simp) (by simp)
   | readForVar => exact nofin_goto h (by simp) (by simp)
   | setVar id => exact nofin_goto (s := { s with var := some id }) h (by simp) (by simp)
@@ -1173,13 +1264,17 @@ theorem step_nofin (cfg : Cfg) (hk : ∀ t, cfg.kind t ≠ .fin) (s : State) (t 
   | readId => exact nofin_goto h (by simp) (by simp)
   | call id =>
     simp only []
-    cases hkt : cfg.kind t with
-    | write p => exact nofin_goto (s := { s with calls := .upload p id :: s.calls }) h (by simp) (by simp)
-    | fin => exact absurd hkt (hk t)
+    split
+    · exact nofin_goto h (by simp) (by simp)
+    · cases hkt : cfg.kind t with
+      | write p => exact nofin_goto (s := { s with calls := .upload p id :: s.calls }) h (by simp) (by simp)
+      | fin => exact absurd hkt (hk t)
   | askClient2 => rw [hpc] at hpt; exact absurd rfl hpt.1
   | delVar => rw [hpc] at hpt; exact absurd rfl hpt.2
+  | releaseFault => exact nofin_goto (s := { s with lock := none }) h (by simp) (by simp)
   | done => exact h
   | failed => exact h
+  | faulted => exact h
 
 theorem runFrom_nofin (cfg : Cfg) (hk : ∀ t, cfg.kind t ≠ .fin) (sched : List Nat) :
     ∀ s, NoFin s → NoFin (runFrom cfg s sched) := by
@@ -1193,7 +1288,8 @@ end Dist
 namespace DistN
 
 /-- the `Dist` configuration seen when every worker computes the same names -/
-def toDist (cfg : Cfg) : Dist.Cfg := { kind := cfg.kind, worker := cfg.worker }
+def toDist (cfg : Cfg) : Dist.Cfg :=
+  { kind := cfg.kind, worker := cfg.worker, faultCreate := cfg.faultCreate, faultCall := cfg.faultCall }
 
 set_option linter.unusedSimpArgs false in
 theorem proj_step (cfg : Cfg) (L V : Nat) (hL : ∀ w, cfg.lockName w = L) (hV : ∀ w, cfg.varName w = V)
@@ -1209,7 +1305,7 @@ theorem proj_step (cfg : Cfg) (L V : Nat) (hL : ∀ w, cfg.lockName w = L) (hV :
     | skip
   all_goals
     simp [proj, State.goto, State.setWid, State.setVar, State.setLock, Dist.State.goto, Dist.State.setWid]
-  all_goals (try split) <;> simp_all
+  all_goals (try split) <;> (try split) <;> simp_all
 
 theorem proj_runFrom (cfg : Cfg) (L V : Nat) (hL : ∀ w, cfg.lockName w = L) (hV : ∀ w, cfg.varName w = V)
     (sched : List Nat) :
@@ -1222,6 +1318,43 @@ theorem proj_runFrom (cfg : Cfg) (L V : Nat) (hL : ∀ w, cfg.lockName w = L) (h
     rw [ih, proj_step cfg L V hL hV]
 
 end DistN
+
+/-! ## One upload object over time -/
+namespace Seq
+
+/-- writes on a started object whose upload is active: parts go under that id, nothing else happens -/
+theorem writes_started (i : Nat) (h0 : i ≠ 0) (n : Nat) :
+    ∀ s : State, s.uploadId = i → s.active.contains i = true →
+      (run s (List.replicate n .write)).1.uploadId = i ∧
+      (run s (List.replicate n .write)).1.creates = s.creates ∧
+      (run s (List.replicate n .write)).1.active = s.active ∧
+      (∀ c ∈ (run s (List.replicate n .write)).2.1, ∃ q, c = SCall.upload q i) ∧
+      (∀ b ∈ (run s (List.replicate n .write)).2.2, b = true) := by
+  induction n with
+  | zero => intro s hi _; simp [run, hi]
+  | succ n ih =>
+    intro s hi ha
+    have hne : s.uploadId ≠ 0 := by rw [hi]; exact h0
+    have hstep : step s .write =
+        ({ s with nextPart := s.nextPart + 1 }, [SCall.upload s.nextPart s.uploadId], true) := by
+      have hm : i ∈ s.active := by simpa using ha
+      simp [step, ensureInit, hi, hm, h0]
+    have := ih { s with nextPart := s.nextPart + 1 } hi ha
+    simp only [List.replicate_succ, run, hstep]
+    obtain ⟨h1, h2, h3, h4, h5⟩ := this
+    refine ⟨h1, h2, h3, ?_, ?_⟩
+    · intro c hc
+      simp only [List.cons_append, List.nil_append, List.mem_cons] at hc
+      rcases hc with rfl | hc
+      · exact ⟨_, by rw [hi]⟩
+      · exact h4 c hc
+    · intro b hb
+      simp only [List.mem_cons] at hb
+      rcases hb with rfl | hb
+      · rfl
+      · exact h5 b hb
+
+end Seq
 
 /-! ## Schedules: counting effective (non-stutter) steps, generic in the transition system -/
 namespace Sched
